@@ -246,9 +246,12 @@ def expand(item, acc: core.Acc, tier):
         for s in SETUP:
             cur.execute(s)
         m = ({}, {})
-        for h in hist:
+        for i, h in enumerate(hist):
             m = model_apply(m, h)
             do_op(conns, h)
+            # the battery also runs after every earlier step, in this same session: its statement texts repeat, so an
+            # answer remembered from before the next SET / UNSET (and not invalidated by it) shows up after that step
+            battery(conns, m, acc, {"history": hist[:i], "op": h, "then": hist[i + 1 :] + [opid]}, h)
         m2 = model_apply(m, opid)
         assert m2 is not None
         got = do_op(conns, opid)
